@@ -277,3 +277,139 @@ def rule_S2(ctx, classes):
                              % (p['name'], f.q, got, want, sign_member or 'northp ? 1 : -1'))
     res.analysed.update({'functions': nfn, 'outputs': nout})
     return res, nfn, nout
+
+
+# ---------------------------------------------------------------------------------------------- S3
+Z = 'zero'      # the central meridian lon0: the origin of the longitude reflection (neutral in sums)
+
+
+class ParityTM(Parity):
+    """the two mirror symmetries of the transverse Mercator projections, with sign symbols taken from the data
+    (`latsign = signbit(lat) ? -1 : 1`)."""
+
+    def __init__(self, fn, sign_member):
+        Parity.__init__(self, fn, sign_member)
+        self.folded = set()
+
+    def ev(self, nid):
+        f = self.fn
+        if nid is None or nid < 0:
+            return E
+        n = f.nodes[nid]
+        k = n['k']
+        if k == 'ConditionalOperator' and self._is_neg_of(n['then'], n['else']):
+            # signbit(v) ? -1 : 1  (possibly `flag && signbit(v)`: the mode without folding is not analysed) carries the
+            # parity of v
+            sb = [f.nodes[j] for j in f.walk(n['cond']) if (f.nodes[j].get('callee') or {}).get('name') == 'signbit']
+            if len(sb) == 1 and sb[0].get('args'):
+                p = Parity.ev(self, sb[0]['args'][0])
+                return O if p == O else (E if p == E else T)
+        if k in ('BinaryOperator',) and n.get('op') in ('+', '-'):
+            a, b = self.ev(n['ch'][0]), self.ev(n['ch'][1])
+            if a == Z:
+                return b
+            if b == Z:
+                return a
+            return add(a, b)
+        if k in ('BinaryOperator',) and n.get('op') in ('*', '/'):
+            a, b = self.ev(n['ch'][0]), self.ev(n['ch'][1])
+            if Z in (a, b):
+                return T
+            return mul(a, b)
+        return Parity.ev(self, nid)
+
+    def call(self, n):
+        f = self.fn
+        ce = n.get('callee') or {}
+        nm = ce.get('name', '')
+        args = n.get('args', [])
+        if nm == 'AngDiff' and len(args) >= 2:
+            a, b = self.ev(args[0]), self.ev(args[1])
+            if a == Z:
+                return b
+            return add(a, b) if b != Z else a
+        if nm == 'AngNormalize' and args:
+            return self.ev(args[0])
+        ps = [self.ev(a) for a in args]
+        if Z in ps:
+            return T
+        return Parity.call(self, n)
+
+    def ex(self, nid):
+        f = self.fn
+        if nid is None or nid < 0:
+            return
+        n = f.nodes[nid]
+        if n['k'] == 'IfStmt':
+            t = n.get('then', -1)
+            tn = f.nodes[t] if t >= 0 else None
+            last = tn
+            while last is not None and last['k'] == 'CompoundStmt' and last['ch']:
+                last = f.nodes[last['ch'][-1]]
+            if last is not None and last['k'] == 'ReturnStmt' and n.get('else', -1) < 0:
+                self.ev(n['cond'])
+                return              # an early return: its outputs are those of another function, decided there
+            cn = f.nodes[f.strip_casts(n['cond'])]
+            if cn['k'] == 'BinaryOperator' and cn.get('op') == '==' and n.get('else', -1) < 0:
+                a, b = f.nodes[f.strip_casts(cn['ch'][0])], f.nodes[f.strip_casts(cn['ch'][1])]
+                if a['k'] == 'DeclRefExpr' and a.get('d') in self.folded and 'cv' in b and int(b['cv']) == 0:
+                    return          # the tie-break at the fixed point of the reflection (lat == 0): both parities agree there
+        Parity.ex(self, nid)
+
+    def assign(self, n):
+        f = self.fn
+        if n['op'] == '*=':
+            ln = f.nodes[f.strip(n['ch'][0])]
+            if ln['k'] == 'DeclRefExpr' and self.ev(n['ch'][0]) == O and self.ev(n['ch'][1]) == O:
+                self.folded.add(ln['d'])
+        return Parity.assign(self, n)
+
+
+S3_REFLECTIONS = {
+    # name: (input parities Forward, output parities Forward, input parities Reverse, output parities Reverse)
+    'latitude': ({'lon0': Z, 'lat': O, 'lon': E}, {'x': E, 'y': O, 'gamma': O, 'k': E},
+                 {'lon0': Z, 'x': E, 'y': O}, {'lat': O, 'lon': E, 'gamma': O, 'k': E}),
+    'longitude': ({'lon0': Z, 'lat': E, 'lon': O}, {'x': O, 'y': E, 'gamma': O, 'k': E},
+                  {'lon0': Z, 'x': O, 'y': E}, {'lat': E, 'lon': O, 'gamma': O, 'k': E}),
+}
+
+
+def rule_S3(ctx, classes):
+    res = RuleResult('S3', 'mirror symmetries of the transverse Mercator projections: under lat -> -lat (y, gamma odd) and under '
+                           'lon - lon0 -> -(lon - lon0) (x, gamma odd) every output of Forward/Reverse has the parity the '
+                           'symmetry requires; the sign symbols are the data-derived `signbit(v) ? -1 : 1` factors, each of which '
+                           'must reach each output exactly once')
+    nfn = 0
+    nout = 0
+    for cls in classes:
+        for f in sorted(ctx.lib_fns(), key=lambda x: (x.file, x.line)):
+            if f.cls != cls or f.name not in ('Forward', 'Reverse') or f.d.get('body', -1) < 0:
+                continue
+            names = [p['name'] for p in f.params]
+            if 'gamma' not in names or 'k' not in names:
+                continue
+            nfn += 1
+            for rname, (fin, fout, rin, rout) in sorted(S3_REFLECTIONS.items()):
+                pin, pout = (fin, fout) if f.name == 'Forward' else (rin, rout)
+                P = ParityTM(f, None)
+                for p in f.params:
+                    if p['pk'] in ('v', 'cr'):
+                        if p['name'] not in pin:
+                            raise AnalysisBroken('S3: %s: no declared parity for argument %s' % (f.q, p['name']))
+                        P.env[p['d']] = pin[p['name']]
+                P.ex(f.d['body'])
+                for p in f.params:
+                    if p['pk'] not in ('r', 'p'):
+                        continue
+                    want = pout.get(p['name'])
+                    got = P.env.get(p['d'])
+                    nout += 1
+                    ok = got == want
+                    res.ob(ok, {'fn': f.q, 'reflection': rname, 'output': p['name'], 'parity': got, 'required': want}
+                           if (not ok or nout % 8 == 1) else None)
+                    if not ok:
+                        res.fail(f.q, '%s/%s' % (p['name'], rname), f.loc(),
+                                 'under the %s reflection output %s of %s has parity %s, the mirror symmetry requires %s: a sign '
+                                 'factor is missing, doubled or applied to only part of the value' % (rname, p['name'], f.q, got, want))
+    res.analysed.update({'functions': nfn, 'outputs_x_reflections': nout})
+    return res, nfn, nout
